@@ -157,6 +157,18 @@ func (s *V2Sessionless) buildAndSendPayload(ctx context.Context, p ipmi.Payload)
 		s.v2SessionLayer.LayerPayload(), gopacket.NilDecodeFeedback)
 }
 
+// validateResponseOperation ensures a decoded message is the response to the
+// request that was sent, as opposed to a duplicated, delayed or unsolicited
+// reply to some other command, which must not be taken as this command's
+// result.
+func validateResponseOperation(req *ipmi.Operation, rsp *ipmi.Message) error {
+	if rsp.Function != req.Function+1 || rsp.Command != req.Command ||
+		rsp.Body != req.Body || rsp.Enterprise != req.Enterprise {
+		return fmt.Errorf("response is for %v, sent %v", rsp.Operation, *req)
+	}
+	return nil
+}
+
 // saves having to write two SerializeLayers calls in SendCommand
 func serializableLayerOrEmpty(s gopacket.SerializableLayer) gopacket.SerializableLayer {
 	if s == nil {
@@ -252,6 +264,9 @@ func (s *V2Sessionless) buildAndSendCommand(ctx context.Context, c ipmi.Command)
 		// here)
 		types := layerexts.DecodedTypes(s.layers)
 		if err := types.InnermostEquals(ipmi.LayerTypeMessage); err != nil {
+			return err
+		}
+		if err := validateResponseOperation(c.Operation(), &s.messageLayer); err != nil {
 			return err
 		}
 
